@@ -6,6 +6,7 @@ import (
 	"bytes"
 	"encoding/json"
 	"fmt"
+	"io"
 	"math"
 	"sort"
 	"strings"
@@ -51,6 +52,19 @@ func has(xs []string, x string) bool {
 		}
 	}
 	return false
+}
+
+// metaValueOfClass: metadata takes what arguments take and, handed over as IPLD nodes, integers of any size (the
+// safe-integer rule is about arguments and policies): a token that a constructor accepts with such a value unseals again.
+func metaValueOfClass(c string, pick int) any {
+	if (c == "max53" || c == "min53" || c == "int") && pick%3 == 2 {
+		wide := []ipld.Node{basicnode.NewInt(1 << 60), basicnode.NewInt(-(1 << 60)), basicnode.NewInt(1 << 53), basicnode.NewInt(math.MaxInt64), basicnode.NewInt(math.MinInt64)}[(pick/3)%5]
+		if (pick/15)%2 == 1 {
+			return listOf(basicnode.NewString("in a list"), mapNode(map[string]ipld.Node{"deep": wide}))
+		}
+		return wide
+	}
+	return valueOfClass(c, pick)
 }
 
 // valueOfClass: several concrete Go values per class; the seed picks one.
@@ -189,7 +203,7 @@ func buildToken(c *tokCase, iss *principal, w *world, pick int) (b *built, err e
 		if has(c.Opts, "meta") {
 			opts = append(opts, delegation.WithMeta("k", "v"))
 			if c.Spec.F == "meta" {
-				opts = append(opts, delegation.WithMeta("special", valueOfClass(c.Spec.C, pick)))
+				opts = append(opts, delegation.WithMeta("special", metaValueOfClass(c.Spec.C, pick)))
 			}
 		}
 		if has(c.Opts, "nbf") {
@@ -238,7 +252,7 @@ func buildToken(c *tokCase, iss *principal, w *world, pick int) (b *built, err e
 		if has(c.Opts, "meta") {
 			opts = append(opts, invocation.WithMeta("k", "v"))
 			if c.Spec.F == "meta" {
-				opts = append(opts, invocation.WithMeta("special", valueOfClass(c.Spec.C, pick)))
+				opts = append(opts, invocation.WithMeta("special", metaValueOfClass(c.Spec.C, pick)))
 			}
 		}
 		if has(c.Opts, "nonce") {
@@ -311,21 +325,59 @@ func wellFormedReal(t token.Token) string {
 	return ""
 }
 
-func unsealBoth(typ, codec string, data []byte) (g, t decRes) {
+// unsealBoth: the generic and the typed decoder of the codec; which of their byte-slice / reader / sealed variants is
+// taken rotates with `pick`, so that every variant meets every kind of token.
+func unsealBoth(typ, codec string, data []byte, pick int) (g, t decRes) {
+	rd := func() io.Reader { return bytes.NewReader(data) }
 	switch codec {
 	case "dagcbor":
-		g = safeDec("token.FromDagCbor", func() (token.Token, error) { return token.FromDagCbor(data) })
+		switch pick % 4 {
+		case 0:
+			g = safeDec("token.FromDagCbor", func() (token.Token, error) { return token.FromDagCbor(data) })
+		case 1:
+			g = safeDec("token.FromDagCborReader", func() (token.Token, error) { return token.FromDagCborReader(rd()) })
+		case 2:
+			g = safeDec("token.FromSealedReader", func() (token.Token, error) { t, _, e := token.FromSealedReader(rd()); return t, e })
+		default:
+			g = safeDec("token.FromSealed", func() (token.Token, error) { t, _, e := token.FromSealed(data); return t, e })
+		}
 		if typ == "dlg" {
-			t = safeDec("delegation.FromDagCbor", func() (token.Token, error) { return delegation.FromDagCbor(data) })
+			switch (pick / 4) % 3 {
+			case 0:
+				t = safeDec("delegation.FromDagCbor", func() (token.Token, error) { return delegation.FromDagCbor(data) })
+			case 1:
+				t = safeDec("delegation.FromDagCborReader", func() (token.Token, error) { return delegation.FromDagCborReader(rd()) })
+			default:
+				t = safeDec("delegation.FromSealedReader", func() (token.Token, error) { t, _, e := delegation.FromSealedReader(rd()); return t, e })
+			}
 		} else {
-			t = safeDec("invocation.FromDagCbor", func() (token.Token, error) { return invocation.FromDagCbor(data) })
+			switch (pick / 4) % 3 {
+			case 0:
+				t = safeDec("invocation.FromDagCbor", func() (token.Token, error) { return invocation.FromDagCbor(data) })
+			case 1:
+				t = safeDec("invocation.FromDagCborReader", func() (token.Token, error) { return invocation.FromDagCborReader(rd()) })
+			default:
+				t = safeDec("invocation.FromSealedReader", func() (token.Token, error) { t, _, e := invocation.FromSealedReader(rd()); return t, e })
+			}
 		}
 	default:
-		g = safeDec("token.FromDagJson", func() (token.Token, error) { return token.FromDagJson(data) })
-		if typ == "dlg" {
-			t = safeDec("delegation.FromDagJson", func() (token.Token, error) { return delegation.FromDagJson(data) })
+		if pick%2 == 0 {
+			g = safeDec("token.FromDagJson", func() (token.Token, error) { return token.FromDagJson(data) })
 		} else {
-			t = safeDec("invocation.FromDagJson", func() (token.Token, error) { return invocation.FromDagJson(data) })
+			g = safeDec("token.FromDagJsonReader", func() (token.Token, error) { return token.FromDagJsonReader(rd()) })
+		}
+		if typ == "dlg" {
+			if (pick/2)%2 == 0 {
+				t = safeDec("delegation.FromDagJson", func() (token.Token, error) { return delegation.FromDagJson(data) })
+			} else {
+				t = safeDec("delegation.FromDagJsonReader", func() (token.Token, error) { return delegation.FromDagJsonReader(rd()) })
+			}
+		} else {
+			if (pick/2)%2 == 0 {
+				t = safeDec("invocation.FromDagJson", func() (token.Token, error) { return invocation.FromDagJson(data) })
+			} else {
+				t = safeDec("invocation.FromDagJsonReader", func() (token.Token, error) { return invocation.FromDagJsonReader(rd()) })
+			}
 		}
 	}
 	return g, t
@@ -405,7 +457,7 @@ func tokenReplay(prop string) replayFn {
 				fail("sealed", err.Error(), "C07: a constructed token cannot be sealed with its issuer's key ("+c.Alg+", "+c.Codec+")")
 				continue
 			}
-			g, t := unsealBoth(b.typ, c.Codec, data)
+			g, t := unsealBoth(b.typ, c.Codec, data, int(envSeed())+idx)
 			rep.sample(map[string]any{"case": json.RawMessage(raw), "sealed_bytes": len(data), "generic_err": fmt.Sprint(g.err), "typed_err": fmt.Sprint(t.err)})
 			if (g.err == nil) != (t.err == nil) {
 				fail("generic and typed decoders agree", fmt.Sprintf("generic: %v, typed: %v", g.err, t.err), "C07: the generic and the typed decoder disagree")
